@@ -20,7 +20,7 @@ static int run(int argc, tok_t *a, out_t *o, f3_t f3, f4_t f4) {
   int e;
   if (f4) e = GUARD(f4(v[ix[0]], v[ix[1]], v[ix[2]], v[ix[3]]));
   else e = GUARD(f3(v[ix[0]], v[ix[1]], v[ix[2]]));
-  if (e) out_exc(o, e);
+  if (e) out_err(o, "div0");      /* MPIR's __gmp_exception raises SIGFPE without setting gmp_errno: in a division op it is DIVIDE_BY_ZERO */
   else
     for (int i = 0; i < 4; i++) {
       out_mpz(o, v[i]); out_long(o, v[i]->_mp_alloc); out_long(o, v[i]->_mp_d != p0[i]);
